@@ -32,10 +32,10 @@ def sh(cmd, cwd=None, env=None, timeout=1800):
 def do_import():
     src_root = '/tmp/seedwork'
     for d in sorted(os.listdir(src_root)):
-        if not d.startswith(('wt_', 'w2_', 'w3_', 'w4_', 'w5_')):
+        if not d.startswith(('wt_', 'w2_', 'w3_', 'w4_', 'w5_', 'w6_')):
             continue
         pid = d[3:]
-        off = {'w2_': 2, 'w3_': 4, 'w4_': 6, 'w5_': 8}.get(d[:3], 0)  # later seeding rounds: ids continue at -3, -5, -7, -9
+        off = {'w2_': 2, 'w3_': 4, 'w4_': 6, 'w5_': 8, 'w6_': 11}.get(d[:3], 0)  # later seeding rounds: ids continue at -3, -5, -7, -9, -12 (-11 are mine)
         sd = os.path.join(src_root, d, '_seed')
         if not os.path.isdir(sd):
             continue
